@@ -1,5 +1,53 @@
-/- C06 — placeholder until the theorems are in; not claimed in MANIFEST.json while this comment stands. -/
+/-
+C06 — Responses are framed: ';' between units, ',' between items, one terminator.
+Property theorems only; helper lemmas in ScpiVerif/Lemmas/Framing.lean.
+
+The model's output state carries ghost fields (Result.Out.gUnits / gItems / gCur / gPartial) that
+record, independently of output_count / first_output, which payload bytes each result writer
+produced and where units end; the theorems relate the bytes actually written to
+`Spec.Message.frame` of those items.
+-/
 import ScpiVerif.Model.Ctx
 import ScpiVerif.Spec.Message
+import ScpiVerif.Lemmas.Framing
+
 namespace ScpiVerif.Props.C06
+open ScpiVerif ScpiVerif.Ctx ScpiVerif.Lexer
+
+/-- Full statement: for every context (any table, any scripts, any state left by earlier messages),
+every message position and length: the bytes written while the message is parsed are exactly
+`frame` of the result items of its units — response units separated by single ';', items by single
+',', one line terminator and one flush iff at least one unit responded, nothing otherwise —
+provided no handler left a result item unfinished (gPartial = false; an unfinished block is C17's
+subject). -/
+theorem framing (c : Ctx) (base len : Nat) :
+    let c' := (parse c base len).1
+    c'.out.gPartial = false →
+    c'.out.written = c.out.written ++ Spec.Message.frame c'.out.gUnits ∧
+    c'.out.flushes = c.out.flushes + (if c'.out.gUnits.any (fun u => !u.isEmpty) then 1 else 0) :=
+  Lemmas.Framing.framing c base len
+
+/-- a message in which nothing responds writes nothing -/
+theorem silent_message (c : Ctx) (base len : Nat) :
+    let c' := (parse c base len).1
+    c'.out.gPartial = false → c'.out.gUnits.all (fun u => u.isEmpty) = true →
+    c'.out.written = c.out.written ∧ c'.out.flushes = c.out.flushes :=
+  Lemmas.Framing.silent_message c base len
+
+/-- the ghost item record is faithful: every completed item is the concatenation of the payload
+bytes its writer produced, e.g. an integer result is its canonical text with base prefix -/
+theorem item_of_int (o : Result.Out) (w : Nat) (hw : w = 32 ∨ w = 64) (v : Nat) (hv : v < 2^w) (base : Int) (sign : Bool)
+    (hcur : o.gCur = []) :
+    (Result.resultIntBaseSign o w v base sign).gItems = o.gItems ++ [Spec.Message.intText w v base sign] ∧
+    (Result.resultIntBaseSign o w v base sign).gCur = [] :=
+  Lemmas.Framing.item_of_int o w hw v hv base sign hcur
+
+theorem item_of_text (o : Result.Out) (d : Bytes) (hcur : o.gCur = []) :
+    (Result.resultText o d).gItems = o.gItems ++ [Spec.Message.quote (d.takeWhile (· ≠ 0))] :=
+  Lemmas.Framing.item_of_text o d hcur
+
+theorem item_of_block (o : Result.Out) (d : Bytes) (hcur : o.gCur = []) (hlen : d.length < 10^9) :
+    (Result.resultBlock o d).gItems = o.gItems ++ [Spec.Message.encodeBlock d] :=
+  Lemmas.Framing.item_of_block o d hcur hlen
+
 end ScpiVerif.Props.C06
